@@ -439,7 +439,7 @@ func (c *CallTree) add(from common.Address, to *common.Address, data []byte, val
 	newCall := &Call{
 		From:  from,
 		To:    to,
-		Data:  data,
+		Data:  common.CopyBytes(data), // the caller's memory may be overwritten after the call
 		Value: value,
 		Gas:   gas,
 
